@@ -48,7 +48,7 @@ pub fn run_job(job: &Job) {
     reset_globals();
     CB_COUNT.store(0, Ordering::SeqCst);
     INJECT_AT.store(0, Ordering::SeqCst);
-    ev!("e": "reset", "job": job.id, "prog": serde_json::to_value(&job.prog).unwrap(), "inject": job.inject,
+    ev!("e": "reset", "job": job.id, "prog": serde_json::to_value(&job.prog).unwrap(), "inject": job.inject, "mode": job.mode,
         "s0": crate::log::SERIAL.load(Ordering::SeqCst));
     let mut db = new_db(job.prog.clone());
     if job.prog.lru_cap != LRU_DECL as i64 && job.prog.lru_cap >= 0 {
